@@ -239,3 +239,53 @@ func H_C15_cbload() {
 		}
 	}
 }
+
+// H_C02_cbroundtrip: arbitrary checkpoints written by the real cbMetadata.Save
+// into an (initially empty) scripted bucket and read back by the real
+// cbMetadata.Load are identical in all four fields, for every 64-bit value.
+func H_C02_cbroundtrip() {
+	setPreempt(0)
+	g := vNewGocb()
+	xattrs := map[string][]byte{} // key -> xattr payload; the document must exist first
+	docs := map[string]bool{}
+	g.kv = func(c vKVCall) ([]byte, gocbcore.Cas, error) {
+		switch c.op {
+		case "MutateIn":
+			if !docs[c.key] {
+				return nil, 0, vKeyNotFound()
+			}
+			if c.path != "cbgo" {
+				return nil, 0, vErrServer
+			}
+			xattrs[c.key] = c.value
+			return nil, 1, nil
+		case "Set":
+			docs[c.key] = true
+			return nil, 1, nil
+		case "LookupIn":
+			v, ok := xattrs[c.key]
+			if !ok || c.path != "cbgo" {
+				return nil, 0, vKeyNotFound()
+			}
+			return v, 1, nil
+		}
+		return nil, 0, vErrServer
+	}
+	cfg := vCbMetaConfig()
+	md := NewCBMetadata(&client{config: cfg}, cfg)
+	in := map[uint16]*models.CheckpointDocument{7: vCpDoc("a"), 1000: vCpDoc("b")}
+	err := md.Save(in, map[uint16]bool{7: true, 1000: true}, "bucket-uuid")
+	assert(err == nil, "save into an empty bucket succeeds (documents are created on demand)")
+	out, exist, lerr := md.Load([]uint16{7, 1000, 8}, "bucket-uuid")
+	assert(lerr == nil && exist, "load finds the stored checkpoints")
+	for vb, want := range in {
+		got, ok := out.Load(vb)
+		assert(ok, "vBucket present")
+		assert(got.Checkpoint.SeqNo == want.Checkpoint.SeqNo && got.Checkpoint.VbUUID == want.Checkpoint.VbUUID &&
+			got.Checkpoint.Snapshot.StartSeqNo == want.Checkpoint.Snapshot.StartSeqNo && got.Checkpoint.Snapshot.EndSeqNo == want.Checkpoint.Snapshot.EndSeqNo,
+			"save then load through the couchbase backend is lossless for every 64-bit field value")
+	}
+	empty, ok := out.Load(8)
+	assert(ok && empty.Checkpoint.SeqNo == 0 && empty.Checkpoint.VbUUID == 0, "a vBucket without a stored checkpoint loads as empty")
+	cover("cb-roundtrip")
+}
